@@ -19,14 +19,15 @@ namespace AGV.Props.C05
 open AGV.Core AGV.Model AGV.Model.Sched AGV.Lemmas.Sched
 open AGV.Spec.Exec (FieldOcc selectOp)
 
-/-- Core statement, for EVERY defect setting, schema, document, variables, world and fuel, and any
+/-- Core statement, for both executors (`ns = false`: derive-built schemas, nested selection sets
+    joined concurrently; `ns = true`: dynamic schemas, nested selection sets serial), EVERY defect setting, schema, document, variables, world and fuel, and any
     two schedules: the two runs have the same data, agree on whether some error reached a
     selection set / list (a join, where siblings can be cancelled), and — if none did — report
     the same travelling error and the same captured errors up to order. -/
-theorem c05_sim (D : ExecStatic.Defects) (perOcc : Bool) (σ τ : Gate) (S : Schema) (d : Doc) (opName : Option String)
+theorem c05_sim (ns : Bool) (D : ExecStatic.Defects) (perOcc : Bool) (σ τ : Gate) (S : Schema) (d : Doc) (opName : Option String)
     (raw : List (String × GValue)) (w : World) (fuel : Nat) :
-    Sim (run D perOcc σ S d opName raw w fuel) (run D perOcc τ S d opName raw w fuel) := by
-  unfold run
+    Sim (runWith ns D perOcc σ S d opName raw w fuel) (runWith ns D perOcc τ S d opName raw w fuel) := by
+  unfold runWith
   split
   · exact Sim.rfl' _
   · apply resolveContainerT_sim <;> rfl
@@ -34,21 +35,21 @@ theorem c05_sim (D : ExecStatic.Defects) (perOcc : Bool) (σ τ : Gate) (S : Sch
 /-- The response DATA is the same under every schedule — with every defect toggle, also when
     errors propagate and siblings are cancelled (output order is index order, never completion
     order; whether a selection set fails does not depend on which child fails first). -/
-theorem c05_data (D : ExecStatic.Defects) (perOcc : Bool) (σ τ : Gate) (S : Schema) (d : Doc) (opName : Option String)
+theorem c05_data (ns : Bool) (D : ExecStatic.Defects) (perOcc : Bool) (σ τ : Gate) (S : Schema) (d : Doc) (opName : Option String)
     (raw : List (String × GValue)) (w : World) (fuel : Nat) :
-    (run D perOcc σ S d opName raw w fuel).val = (run D perOcc τ S d opName raw w fuel).val :=
-  (c05_sim D perOcc σ τ S d opName raw w fuel).1
+    (runWith ns D perOcc σ S d opName raw w fuel).val = (runWith ns D perOcc τ S d opName raw w fuel).val :=
+  (c05_sim ns D perOcc σ τ S d opName raw w fuel).1
 
 /-- The multiset of ERRORS (path, location) is the same under every schedule, provided no error
     reaches a selection set or a list under ONE schedule (then it does under none): this is the
     situation "faults at nullable positions only" in the repaired executor, see
     `c05_fault_at_nullable_is_local`. -/
-theorem c05_errors (D : ExecStatic.Defects) (perOcc : Bool) (σ τ : Gate) (S : Schema) (d : Doc) (opName : Option String)
+theorem c05_errors (ns : Bool) (D : ExecStatic.Defects) (perOcc : Bool) (σ τ : Gate) (S : Schema) (d : Doc) (opName : Option String)
     (raw : List (String × GValue)) (w : World) (fuel : Nat)
-    (hlocal : (run D perOcc σ S d opName raw w fuel).prop = false) :
-    (run D perOcc τ S d opName raw w fuel).prop = false ∧
-    ((run D perOcc σ S d opName raw w fuel).errors).Perm ((run D perOcc τ S d opName raw w fuel).errors) := by
-  have h := c05_sim D perOcc σ τ S d opName raw w fuel
+    (hlocal : (runWith ns D perOcc σ S d opName raw w fuel).prop = false) :
+    (runWith ns D perOcc τ S d opName raw w fuel).prop = false ∧
+    ((runWith ns D perOcc σ S d opName raw w fuel).errors).Perm ((runWith ns D perOcc τ S d opName raw w fuel).errors) := by
+  have h := c05_sim ns D perOcc σ τ S d opName raw w fuel
   refine ⟨h.2.1 ▸ hlocal, ?_⟩
   have := h.2.2 hlocal
   unfold TRes.errors
